@@ -18,6 +18,8 @@ pub struct RunCfg {
 }
 
 pub struct RunStats {
+    /// F17 observation (first one of the run): not an abort, reported by the caller
+    pub dead_roots: Option<String>,
     pub worker_steps: u64,
     pub slots_seen: u64,
     pub reuse_seen: u64,
@@ -36,6 +38,7 @@ pub struct Failure {
 struct Ctx {
     shadows: Vec<Shadow>,
     worker_steps: u64,
+    dead_roots: Option<String>,
 }
 
 fn checked_step(sim: &mut Sim, cx: &mut Ctx, c: Choice) -> Result<(), (String, String)> {
@@ -59,6 +62,9 @@ fn checked_step(sim: &mut Sim, cx: &mut Ctx, c: Choice) -> Result<(), (String, S
         cx.worker_steps += 1;
         let ex = sim.workers[i].verif_executor();
         oracle::check(ex, &mut cx.shadows[i])?;
+        if cx.dead_roots.is_none() {
+            cx.dead_roots = oracle::dead_roots(ex).map(|d| format!("worker {i}: {d}"));
+        }
     }
     Ok(())
 }
@@ -88,7 +94,7 @@ fn process_types(sim: &mut Sim, cx: &mut Ctx) -> Result<HashMap<usize, (quiver_c
 
 pub fn run(prog: &Program, cfg: &RunCfg) -> Result<RunStats, Failure> {
     let mut sim = Sim::new(cfg.workers, cfg.quantum, qverif::run::builtins(), false).with_repl(HashMap::new());
-    let mut cx = Ctx { shadows: (0..cfg.workers).map(|_| Shadow::default()).collect(), worker_steps: 0 };
+    let mut cx = Ctx { shadows: (0..cfg.workers).map(|_| Shadow::default()).collect(), worker_steps: 0, dead_roots: None };
     let mut r = Rng::for_case(cfg.sched_seed, 0);
     let mut outcomes = vec![];
     let mut lines_done = 0;
@@ -202,6 +208,7 @@ pub fn run(prog: &Program, cfg: &RunCfg) -> Result<RunStats, Failure> {
         }
     }
     Ok(RunStats {
+        dead_roots: cx.dead_roots.clone(),
         worker_steps: cx.worker_steps,
         slots_seen: cx.shadows.iter().map(|s| s.slots_seen).sum(),
         reuse_seen: cx.shadows.iter().map(|s| s.reuse_seen).sum(),
